@@ -3778,6 +3778,13 @@ async fn main() -> anyhow::Result<()> {
         loop {
             tokio::select! {
                 _ = interval.tick() => {
+                    // Periodic policy: appends only sync when the next append comes late enough,
+                    // so the last writes before an idle period are synced from here.
+                    if matches!(fsync_policy, FsyncPolicy::Periodic(_)) {
+                        if let Err(e) = engine_for_flush.cold_tier().sync_wal() {
+                            error!(error = %e, "Periodic WAL sync failed");
+                        }
+                    }
                     match engine_for_flush.flush_hot_tier(false) {
                         Ok(count) if count > 0 => {
                             info!(docs_flushed = count, "Background flush completed");
